@@ -347,7 +347,8 @@ class Check(core.PropertyCheck):
         "ws_not_a_completion", "stop_unset", "stop_done", "stop_pending_match", "stop_pending_nomatch",
         "stop_several_pending", "stop_with_completed", "rotate", "rotate_while_pending", "start_append",
         "start_overwrite", "second_session", "filter_change", "filter_change_while_pending", "completion_after_stop_write",
-        "refused_option_change", "refused_option_change_while_saving")
+        "refused_option_change", "refused_option_change_while_saving",
+        "filter_change_after_records_overwrite", "filter_change_after_records_append")
     REQUIRED_ACTIONS = ("SetFile", "SetFilter", "Unset", "Done", "StartHook")  # per-type hooks: see the witnesses
     ASSUMPTIONS = (
         "records on disk are read with the harness's own tnetstring reader and identified by their 'id' entry; `new` "
